@@ -31,6 +31,18 @@ func fixedWidth(f *ssa.Function) int64 {
 		if !ok {
 			continue
 		}
+		// the byte-order helpers append a fixed number of bytes
+		switch calleeName(c) {
+		case "(encoding/binary.bigEndian).AppendUint32", "(encoding/binary.littleEndian).AppendUint32":
+			total += 4
+			continue
+		case "(encoding/binary.bigEndian).AppendUint16", "(encoding/binary.littleEndian).AppendUint16":
+			total += 2
+			continue
+		case "(encoding/binary.bigEndian).AppendUint64", "(encoding/binary.littleEndian).AppendUint64":
+			total += 8
+			continue
+		}
 		b, ok := c.Call.Value.(*ssa.Builtin)
 		if !ok || b.Name() != "append" || len(c.Call.Args) != 2 {
 			continue
@@ -270,6 +282,14 @@ func c19(r *Report) {
 				}
 			}
 		}
+		// the direct form: terminal := err == io.EOF
+		if b, isB := a[4].(*ssa.BinOp); isB && b.Op == token.EQL && inner != nil {
+			errv := resultOf(inner, 1)
+			isEOF := func(v ssa.Value) bool { return errClass(v) == "global:EOF" }
+			if (b.X == errv && isEOF(b.Y)) || (b.Y == errv && isEOF(b.X)) {
+				okT = true
+			}
+		}
 		r.Decide("path", "(*M/marbl.bodyLogger).Read: the frame is terminal exactly when the read returned io.EOF", okT, "terminal = (err == io.EOF)", "the terminal flag is set on other errors (a truncated body looks complete) or not at EOF", sds[0].Pos())
 		// the wrapper is what replaces the message body, wrapping the original body
 		okWrap := true
@@ -374,6 +394,24 @@ func c19(r *Report) {
 					}
 				}
 				r.Decide("path", fmt.Sprintf("(*M/marbl.Reader).ReadFrame: the bound on allocation #%d admits every frame the writer can emit", n), !tooTight, "lengths up to 1<<31-1 pass the guard", "the reader refuses payload lengths (64 KiB, 1 MiB or 1<<31-1) that a Stream emits for a large Read of the logged body: such a stream no longer decodes", mk.Pos())
+			}
+			// the same, in whatever form the comparison is written: with the decoded length(s)
+			// adding up to 1<<31 the edge towards the allocation is not taken
+			if !guarded {
+				isSubject := func(v ssa.Value) bool {
+					cs := w.backSlice(v, flowOpt{BinOps: true})
+					for _, l := range lens {
+						if !cs[l] {
+							return false
+						}
+					}
+					return true
+				}
+				for _, ce := range ctrlEdges(mk.Block()) {
+					if rel, adm := constCmpAdmits(ce, isSubject, 1<<31); rel && !adm {
+						guarded = true
+					}
+				}
 			}
 			r.Sites++
 			r.Decide("path", fmt.Sprintf("(*M/marbl.Reader).ReadFrame: allocation #%d sized from the wire is bounded", n), guarded, "dominated by a comparison of the decoded length(s) with a constant bound that rejects larger values", "a buffer is sized by an unchecked length from the wire: a negative size on 32-bit platforms (panic) or an arbitrary allocation", mk.Pos())
